@@ -9,21 +9,15 @@ structure WF (t : DevTree) : Prop where
   udn : ∀ d ∈ allDevices t, wfUdn d.udn = true
   dtype : ∀ d ∈ allDevices t, (typeParts (lower d.type)).isSome = true
   stype : ∀ s ∈ allServices t, (typeParts (lower s.type)).isSome = true
-  ud : ∀ d ∈ allDevices t, ∀ d' ∈ allDevices t, baseOf d.udn ≠ baseOf d'.type
-  us : ∀ d ∈ allDevices t, ∀ s ∈ allServices t, baseOf d.udn ≠ baseOf s.type
-  ds : ∀ d ∈ allDevices t, ∀ s ∈ allServices t, baseOf d.type ≠ baseOf s.type
   root : wfUdn t.udn = true
 
 theorem WF.of_wfTree {t : DevTree} (h : wfTree t = true) : WF t := by
-  simp only [wfTree, Bool.and_eq_true, List.all_eq_true, bne_iff_ne, ne_eq, baseOf, Option.isSome_map] at h
-  obtain ⟨⟨⟨h1, h2⟩, h3⟩, h4⟩ := h
+  simp only [wfTree, Bool.and_eq_true, List.all_eq_true, baseOf, Option.isSome_map] at h
+  obtain ⟨⟨h1, h2⟩, h4⟩ := h
   exact
     { udn := fun d hd => (h1 d hd).1
       dtype := fun d hd => (h1 d hd).2
       stype := h2
-      ud := fun d hd d' hd' => (h3 d hd).1 d' hd'
-      us := fun d hd s hs => ((h3 d hd).2 s hs).1
-      ds := fun d hd s hs => ((h3 d hd).2 s hs).2
       root := h4 }
 
 def msgKey (ci : Bool) (m : Msg) : Str × Str := normKey ci m.st m.usn
@@ -49,12 +43,14 @@ theorem perm_map_map_flatMap {α β : Type} (f g : α → β) (l : List α) :
 
 /-- **target dispatch**: for a well-formed tree the responder's answer to any search target is,
     as a multiset of (ST, USN) (ST compared ignoring case when it echoes the request), exactly the
-    table prescribed for that target -/
-theorem dispatch_perm {t : DevTree} (hw : WF t) (st : Str) :
-    ((buildResponses t st).map (msgKey (expected t st).2)).Perm
-      ((expected t st).1.map (expKey (expected t st).2)) := by
-  unfold buildResponses expected
-  simp only
+    table prescribed for that target — whatever UDNs / types repeat in the tree, for both settings
+    of the always-root option -/
+theorem dispatch_perm {t : DevTree} (hw : WF t) (ar : Bool) (st : Str) :
+    ((buildResponses t ar st).map (msgKey (expected t ar st).2)).Perm
+      ((expected t ar st).1.map (expKey (expected t ar st).2)) := by
+  unfold buildResponses expected expectedBase
+  simp only [List.map_append]
+  refine List.Perm.append ?_ (by cases ar <;> exact List.Perm.refl _)
   by_cases hall : lower st = ssdpAll
   · simp only [hall, if_true, expAll, List.map_cons, List.map_append, List.map_flatMap, List.map_map]
     refine List.Perm.cons _ ?_
@@ -63,11 +59,10 @@ theorem dispatch_perm {t : DevTree} (hw : WF t) (st : Str) :
     refine this.trans ?_
     exact List.Perm.refl _
   · by_cases hroot : lower st = rootDevice
-    · simp only [hroot, if_true]
+    · simp only [hall, hroot, if_true, if_false]
       exact List.Perm.refl _
     · simp only [hall, hroot, if_false]
       rw [devicesMatchingUdn_eq]
-      -- the type filters of the code and of the table coincide on a well-formed tree
       have hD : (allDevices t).filter (fun d => matchTypeVersions d.type (lower st))
               = (allDevices t).filter (fun d => typeMatches d.type st) :=
         List.filter_congr fun d hd => matchTypeVersions_eq_typeMatches (hw.dtype d hd) st
@@ -75,52 +70,21 @@ theorem dispatch_perm {t : DevTree} (hw : WF t) (st : Str) :
               = (allServices t).filter (fun s => typeMatches s.type st) :=
         List.filter_congr fun s hs => matchTypeVersions_eq_typeMatches (hw.stype s hs) st
       rw [hD, hS]
-      cases hU : (allDevices t).filter (fun d => lower d.udn == lower st) with
-      | cons d ds =>
-        -- a UDN matched: no type can
-        have hd : d ∈ allDevices t ∧ lower d.udn = lower st := by
-          have : d ∈ (allDevices t).filter (fun d => lower d.udn == lower st) := by rw [hU]; simp
-          simpa using this
-        have hD0 : (allDevices t).filter (fun d => typeMatches d.type st) = [] := by
-          rw [List.filter_eq_nil_iff]
-          intro d' hd' hm
-          obtain ⟨b, h1, h2⟩ := typeMatches_base hm
-          exact hw.ud d hd.1 d' hd' (by rw [baseOf_congr hd.2, h1, h2])
-        have hS0 : (allServices t).filter (fun s => typeMatches s.type st) = [] := by
-          rw [List.filter_eq_nil_iff]
-          intro s hs hm
-          obtain ⟨b, h1, h2⟩ := typeMatches_base hm
-          exact hw.us d hd.1 s hs (by rw [baseOf_congr hd.2, h1, h2])
-        simp only [hD0, hS0, List.map_nil, List.append_nil, List.map_map]
-        exact List.Perm.refl _
-      | nil =>
-        simp only [List.map_nil, List.nil_append]
-        cases hDD : (allDevices t).filter (fun d => typeMatches d.type st) with
-        | cons d ds =>
-          have hd : d ∈ allDevices t ∧ typeMatches d.type st = true := by
-            have : d ∈ (allDevices t).filter (fun d => typeMatches d.type st) := by rw [hDD]; simp
-            simpa using this
-          have hS0 : (allServices t).filter (fun s => typeMatches s.type st) = [] := by
-            rw [List.filter_eq_nil_iff]
-            intro s hs hm
-            obtain ⟨b, h1, h2⟩ := typeMatches_base hm
-            obtain ⟨b', h1', h2'⟩ := typeMatches_base hd.2
-            have : b = b' := by rw [h2] at h2'; exact Option.some.inj h2'
-            exact hw.ds d hd.1 s hs (by rw [h1, h1', this])
-          have hne := typeMatches_ne_nil hd.2
-          simp only [hS0, List.map_nil, List.append_nil, List.map_map]
-          apply List.Perm.of_eq
-          apply List.map_congr_left
-          intro d' _
-          simp [msgKey, expKey, respDevType, expDevType, normKey, strOr_some_ne_nil hne, lower_lower]
-        | nil =>
-          simp only [List.map_nil, List.nil_append, List.map_map]
-          apply List.Perm.of_eq
-          apply List.map_congr_left
-          intro s hs
-          have hm : typeMatches s.type st = true := by
-            have := List.mem_filter.mp hs; simpa using this.2
-          have hne := typeMatches_ne_nil hm
-          simp [msgKey, expKey, respSvc, expSvc, normKey, strOr_some_ne_nil hne, lower_lower]
+      simp only [List.map_append, List.map_map]
+      apply List.Perm.of_eq
+      congr 1
+      · congr 1
+        apply List.map_congr_left
+        intro d hd
+        have hm : typeMatches d.type st = true := by
+          have := List.mem_filter.mp hd; simpa using this.2
+        have hne := typeMatches_ne_nil hm
+        simp [msgKey, expKey, respDevType, expDevType, normKey, strOr_some_ne_nil hne, lower_lower]
+      · apply List.map_congr_left
+        intro s hs
+        have hm : typeMatches s.type st = true := by
+          have := List.mem_filter.mp hs; simpa using this.2
+        have hne := typeMatches_ne_nil hm
+        simp [msgKey, expKey, respSvc, expSvc, normKey, strOr_some_ne_nil hne, lower_lower]
 
 end Upnp.C13
